@@ -4,8 +4,8 @@ from __future__ import annotations
 from . import c13_stepper as S
 
 PROP = "C12"
-LEAN_TARGETS = ["Asynkit.Props.C12", "Asynkit.Lemmas.GenEqLock"]
-PROPS_FILES = ["Asynkit/Props/C12.lean", "Asynkit/Lemmas/GenEqLock.lean"]
+LEAN_TARGETS = ["Asynkit.Props.C12", "Asynkit.Lemmas.GenEqLock", "Asynkit.Lemmas.GenEqContextlib"]
+PROPS_FILES = ["Asynkit/Props/C12.lean", "Asynkit/Lemmas/GenEqLock.lean", "Asynkit/Lemmas/GenEqContextlib.lean"]
 DRIVERS = ["Lock"]
 TRUSTED = [
     'Lean 4.33 kernel; axioms ⊆ {propext, Classical.choice, Quot.sound} (audited per theorem each run)',
